@@ -1,10 +1,157 @@
 import KawinV.Proto
-/-! driver verbs for C14 (stub: no verbs yet) -/
+import KawinV.Model.NucSites
+/-! driver verbs for C14: generated nucleation formulas and the hand model, on `Float` -/
 namespace KawinV.Drv.C14
-open KawinV.Proto
+open KawinV KawinV.Proto KawinV.Gen.C14 KawinV.Nuc
+
+instance : One Float := ⟨1.0⟩
+
+def site : P Site := do
+  let t ← tok
+  match t with
+  | "bulk" => pure .bulk
+  | "disl" => pure .disl
+  | "gb" => pure .gb
+  | "edge" => pure .edge
+  | "corner" => pure .corner
+  | _ => failure
+
+def cache : P Cache := do
+  let t ← tok
+  match t with
+  | "gbk" => pure .gbk
+  | "area" => pure .area
+  | "vol" => pure .vol
+  | "rem" => pure .rem
+  | "arem" => pure .arem
+  | _ => failure
+
+def caches : List Cache := [.rem, .area, .vol, .arem]
+
+/-- gen.geo site k → the four inner formulas [gbRemoval, areaFactor, volumeFactor, areaRemoval] -/
+def geo : P String := do
+  let s ← site; let k ← flt
+  pure (flist (caches.map fun c => formula s c k))
+
+/-- desc.val site k → belowMax, maxRatio (inf for none), the four wrapper values (sentinel −1 above the limit) -/
+def descval : P String := do
+  let s ← site; let k ← flt
+  let m : Float := match maxRatio (α := Float) s with | none => 1.0 / 0.0 | some m => m
+  pure s!"{bstr (belowMax s k)} {fout m} {flist (caches.map fun c => descValue s c k)}"
+
+/-- gen.nbp a b c gamma gbE dG R → nbp_Rcrit, nbp_Gcrit, gbRatio -/
+def nbpf : P String := do
+  let a ← flt; let b ← flt; let c ← flt; let g ← flt; let e ← flt; let dG ← flt; let r ← flt
+  pure (flist [nbp_Rcrit a b c g e dG, nbp_Gcrit a b c g e dG r, gbRatio e g])
+
+/-- nr.barrier isGB f gamma a b c gbE Rmin dG → Rcrit, Gcrit -/
+def barrierV : P String := do
+  let gb ← bool; let f ← flt; let g ← flt; let a ← flt; let b ← flt; let c ← flt; let e ← flt
+  let rmin ← flt; let dG ← flt
+  let (r, gc) := barrier gb f g a b c e rmin dG
+  pure (flist [r, gc])
+
+def zeld : P String := do
+  let kB ← flt; let na ← flt; let c ← flt; let vm ← flt; let g ← flt; let t ← flt; let r ← flt
+  pure (fout (zeldovichW kB na c vm g t r))
+
+def beta1 : P String := do
+  let a ← flt; let a0 ← flt; let x ← flt; let d1 ← flt; let r ← flt
+  pure (fout (beta1W a a0 x d1 r))
+
+def beta2 : P String := do
+  let a ← flt; let a0 ← flt; let xa ← flt; let xb ← flt; let d0 ← flt; let d1 ← flt; let r ← flt
+  pure (fout (beta2W a a0 xa xb d0 d1 r))
+
+def betam : P String := do
+  let a ← flt; let a0 ← flt; let imp ← flt; let r ← flt
+  pure (fout (betaMW a a0 imp r))
+
+def tauV : P String := do
+  let th ← flt; let b ← flt; let z ← flt
+  pure (fout (incubationW th b z))
+
+/-- nr.rate kB Z beta G T tau t → rate (finite time), steady rate (time = inf) -/
+def rate : P String := do
+  let kB ← flt; let z ← flt; let b ← flt; let g ← flt; let t ← flt; let tau ← flt; let time ← flt
+  pure (flist [nucRateW kB z b g t tau time, steadyRateW kB z b g t])
+
+def radius : P String := do
+  let kB ← flt; let g ← flt; let t ← flt; let r ← flt
+  pure (fout (nucleationRadius kB g t r))
+
+/-- nr.tauni theta Z currBeta currTime currTemp betas times temps -/
+def tauni : P String := do
+  let th ← flt; let z ← flt; let cb ← flt; let ct ← flt; let cT ← flt
+  let bs ← flts; let ts ← flts; let Ts ← flts
+  pure (fout (tauNonIso th z cb ct cT bs ts Ts))
+
+def op : P (Op Float) := do
+  let t ← tok
+  match t with
+  | "G" => do let v ← optFlt; pure (.setGamma v)
+  | "E" => do let v ← optFlt; pure (.setGbE v)
+  | "D" => do let s ← site; pure (.setSite s)
+  | "g" => do let c ← cache; pure (.get c)
+  | _ => failure
+
+def showRes : Except Err Float → String
+  | .ok v => fout v
+  | .error .gamma => "err-gamma"
+  | .error .gbEnergy => "err-gb"
+  | .error .ratio => "err-ratio"
+
+/-- nbp.ops site gamma? gbE? n op… → one token per `get` -/
+def ops : P String := do
+  let s ← site; let g ← optFlt; let e ← optFlt
+  let os ← lst op
+  let (rs, _) := (NBP.init s g e).run os
+  pure (" ".intercalate (toString rs.length :: rs.map showRes))
+
+def phase : P (PhasePop Float) := do
+  let s ← site; let ns ← flts; let rs ← flts; let gr ← flt; let k ← flt; let vm ← flt
+  pure ⟨s, ns.zip rs, gr, k, vm⟩
+
+/-- sites.calc bulkN0 dislN0 gbN0 edgeN0 cornerN0 NA VmAlpha nphases phase… parents site -/
+def sitesV : P String := do
+  let b ← flt; let d ← flt; let g ← flt; let e ← flt; let c ← flt; let na ← flt; let vm ← flt
+  let phs ← lst phase
+  let par ← lst nat
+  let s ← site
+  pure (fout (calcSites ⟨b, d, g, e, c, na, vm⟩ phs par s))
+
+/-- step.nuc isGB f gamma a b c gbE Rmin kB NA Vm T theta t dt minDens sites tauNI?  prev(5) dG beta
+→ the slice after the step (repaired code) and after the stale variant -/
+def stepV : P String := do
+  let gb ← bool; let f ← flt; let g ← flt; let a ← flt; let b ← flt; let c ← flt; let e ← flt
+  let rmin ← flt; let kB ← flt; let na ← flt; let vm ← flt; let T ← flt; let th ← flt
+  let t ← flt; let dt ← flt; let md ← flt; let st ← flt; let tn ← optFlt
+  let p ← flts; let dG ← flt; let beta ← flt
+  let q : StepIn Float := ⟨gb, f, g, a, b, c, e, rmin, kB, na, vm, T, th, t, dt, md, st, tn⟩
+  let prev : NucSlice Float := ⟨p.getD 0 0, p.getD 1 0, p.getD 2 0, p.getD 3 0, p.getD 4 0⟩
+  -- the impingement rate is a thermodynamic input: the recorded value where the radius is non-zero
+  let betaOf : Float → Float := fun r => if r < 0 ∨ 0 < r then beta else 0
+  let o := nucStep q prev dG betaOf
+  let o' := nucStepStale q prev dG betaOf
+  pure s!"{flist [o.Rcrit, o.Gcrit, o.imp, o.rate, o.Rnuc]} {flist [o'.Rcrit, o'.Gcrit, o'.imp, o'.rate, o'.Rnuc]}"
 
 def handle (verb : String) : Option (P String) :=
   match verb with
+  | "gen.geo" => some geo
+  | "desc.val" => some descval
+  | "gen.nbp" => some nbpf
+  | "nr.barrier" => some barrierV
+  | "nr.zeld" => some zeld
+  | "nr.beta1" => some beta1
+  | "nr.beta2" => some beta2
+  | "nr.betam" => some betam
+  | "nr.tau" => some tauV
+  | "nr.rate" => some rate
+  | "nr.radius" => some radius
+  | "nr.tauni" => some tauni
+  | "nbp.ops" => some ops
+  | "sites.calc" => some sitesV
+  | "step.nuc" => some stepV
   | _ => none
 
 end KawinV.Drv.C14
